@@ -85,6 +85,9 @@ const STREAMS: &[(&str, &str)] = &[
 
 /// single-result built-in loops: must yield $n
 const LOOPS: &[(&str, &str)] = &[
+    ("child that recurses on itself and calls its parent", "def f: def g: if . % 2 == 1 then . + 1 | g elif . < $n then . + 1 | f else . end; g; 0 | f"),
+    ("two children calling each other's parent", "def f: def g: if . < $n then . + 1 | f else . end; def h: if . % 3 == 0 then g else . + 1 | f end; if . < $n then h else . end; 0 | f"),
+    ("grandchild that recurses on itself, its parent and its grandparent", "def f: def g: def h: if . % 3 == 1 then . + 1 | h elif . % 3 == 2 then . + 1 | g elif . < $n then . + 1 | f else . end; h; g; 0 | f | if . >= $n then $n else . end"),
     ("until", "0 | until(. >= $n; . + 1)"),
     ("last(range)", "last(range($n + 1))"),
     ("last(limit(recurse))", "last(limit($n + 1; 0 | recurse(. + 1)))"),
